@@ -142,7 +142,7 @@ def run_config(arg):
         if "affine" in precond or precond == "flow":
             # non-initial state: the preconditioning transform was fitted before on another population
             # (the samplers refit it at every iteration)
-            other = POPS[(pop_id + 1) % 3](d, lo, hi)
+            other = POPS[2 if pop_id != 2 else 0](d, lo, hi)  # >= 5 rows (a flow fit needs a validation split)
             smp.fit_preconditioning_transform(xp.asarray(other))
         smp.fit_preconditioning_transform(xp.asarray(pop))
     except Exception as e:
